@@ -270,7 +270,10 @@ pub fn gen_data(r: &mut Sm, p: &Profile, inst: &Instance, ctx: &Ctx) -> Vec<u8> 
     let own = inst.identity();
     let snap = inst.foca.verif_snapshot();
     // sender: often the member being probed or one asked for an indirect probe
-    let src = if let (Some(d), true) = (&snap.probe_direct, r.chance(25)) {
+    let downs: Vec<VId> = inst.members().iter().filter(|m| m.state() == State::Down && m.id().addr != own.addr).map(|m| *m.id()).collect();
+    let src = if !downs.is_empty() && r.chance(12) {
+        *r.pick(&downs)
+    } else if let (Some(d), true) = (&snap.probe_direct, r.chance(25)) {
         *d.id()
     } else if !snap.probe_indirect.is_empty() && r.chance(20) {
         *r.pick(&snap.probe_indirect)
@@ -291,13 +294,15 @@ pub fn gen_data(r: &mut Sm, p: &Profile, inst: &Instance, ctx: &Ctx) -> Vec<u8> 
     let header = Header { src, src_incarnation: src_inc, dst, message: message.clone() };
     let carries_updates = crate::wire::carries_updates(&message);
     let carries_custom = crate::wire::carries_custom(&message);
-    let section: Option<Vec<Member<VId>>> = if carries_updates && r.chance(75) {
+    // (a TurnUndead with a member section is not something foca sends, but the receiver reads one)
+    let odd_section = matches!(message, Message::TurnUndead) && r.chance(35);
+    let section: Option<Vec<Member<VId>>> = if (carries_updates && r.chance(75)) || odd_section {
         let n = r.weighted(&[20, 30, 25, 15, 10]);
         Some((0..n).map(|_| gen_member(r, p, inst)).collect())
     } else {
         None
     };
-    let items: Vec<Vec<u8>> = if carries_custom && (section.is_some() || !carries_updates) && r.chance(35) {
+    let items: Vec<Vec<u8>> = if (carries_custom || odd_section) && (section.is_some() || !carries_updates) && r.chance(35) {
         (0..r.range(1, 2)).map(|_| gen_item(r)).collect()
     } else {
         vec![]
